@@ -261,11 +261,15 @@ def rule_in(ctx):
         if mem is None:
             raise AnalysisError('anchor vanished: PrefetchDataset.%s' % mname)
         for n in A.walk_local(mem.node):
-            if isinstance(n, ast.If) and isinstance(n.test, ast.Compare) and isinstance(n.test.ops[0], ast.Is) \
-                    and A.is_const(n.test.comparators[0], True) and A.is_self_attr(n.test.left, 'catch_filter_exception'):
+            t, neg = (A.strip_not(n.test) if isinstance(n, ast.If) else (None, False))
+            if isinstance(n, ast.If) and isinstance(t, ast.Compare) and isinstance(t.ops[0], (ast.Is, ast.IsNot)) \
+                    and A.is_const(t.comparators[0], True) and A.is_self_attr(t.left, 'catch_filter_exception'):
                 n_true += 1
-                ok = any(isinstance(s, ast.Assign) and A.src(s.value) == 'FilterException' for s in n.body) and \
-                    any(isinstance(s, ast.Assign) and A.is_self_attr(s.value, 'catch_filter_exception') for s in n.orelse)
+                if isinstance(t.ops[0], ast.IsNot):
+                    neg = not neg
+                when_true, otherwise = (n.orelse, n.body) if neg else (n.body, n.orelse)
+                ok = any(isinstance(s, ast.Assign) and A.src(s.value) == 'FilterException' for s in when_true) and \
+                    any(isinstance(s, ast.Assign) and A.is_self_attr(s.value, 'catch_filter_exception') for s in otherwise)
                 rep.ob('DF', K.key(pre, mname, 'True-means-FilterException-else-the-given-selection'), ok, n,
                        '' if ok else 'catch_filter_exception=True must select FilterException and any other value '
                        'must be used as given')
